@@ -39,6 +39,7 @@ import p_place
 import p_corridor
 import p_multigrid
 import p_reach
+import p_pacman
 from p_place import guarded, opts_wire
 from p_attack import fenc
 
@@ -628,6 +629,8 @@ def case_from_desc(d):
         return p_multigrid.case_from_desc(d)
     if d["which"] == "reach":
         return p_reach.case_from_desc(d)
+    if d["which"] == "pacman":
+        return p_pacman.case_from_desc(d)
     sess = ExSession(d["which"], d["p"], d.get("order", 0), scribble=bool(d.get("scribble")))
     other = None
     if d.get("twin"):
@@ -671,6 +674,7 @@ def gen_cases(rng, stream, count, quick=True):
     yield from p_corridor.gen_cases(rng, stream, max(20, count // 4), quick)
     yield from p_multigrid.gen_cases(rng, stream, max(12, count // 8), quick)
     yield from p_reach.gen_cases(rng, stream, max(20, count // 4), quick)
+    yield from p_pacman.gen_cases(rng, stream, max(16, count // 8), quick)
 
 
 def interpret(reply, case):
@@ -678,6 +682,8 @@ def interpret(reply, case):
         return p_corridor.interpret(reply, case)
     if case.desc.get("which") == "multigrid":
         return p_multigrid.interpret(reply, case)
+    if case.desc.get("which") == "pacman":
+        return p_pacman.interpret(reply, case)
     return _interpret(reply, case)
 
 
@@ -917,6 +923,8 @@ def mgr_case_from_desc(d):
         return p_multigrid.mgr_case_from_desc(d)
     if d["which"] == "reach":
         return p_reach.mgr_case_from_desc(d)
+    if d["which"] == "pacman":
+        return p_pacman.mgr_case_from_desc(d)
     ms = MgrSession(d)
     for op in d["ops"]:
         if ms.dead:
@@ -984,6 +992,7 @@ def gen_mgr_cases(rng, count):
     yield from p_corridor.gen_mgr_cases(rng, max(20, count // 4))
     yield from p_multigrid.gen_mgr_cases(rng, max(12, count // 8))
     yield from p_reach.gen_mgr_cases(rng, max(20, count // 4))
+    yield from p_pacman.gen_mgr_cases(rng, max(12, count // 6))
 
 
 def mgr_interpret(reply, case, spec_idx):
@@ -1026,6 +1035,8 @@ def twin_case(d):
         return p_multigrid.twin_case(d)
     if d["which"] == "reach":
         return p_reach.twin_case(d)
+    if d["which"] == "pacman":
+        return p_pacman.twin_case(d)
     return _twin_case(d)
 
 
@@ -1073,6 +1084,7 @@ def gen_twin_cases(rng, count):
     yield from p_corridor.gen_twin_cases(rng, max(10, count // 4))
     yield from p_multigrid.gen_twin_cases(rng, max(8, count // 8))
     yield from p_reach.gen_twin_cases(rng, max(10, count // 4))
+    yield from p_pacman.gen_twin_cases(rng, max(8, count // 5))
 
 
 def twin_interpret(reply, case):
@@ -1119,7 +1131,7 @@ RULE = (" Stream `example-modelled`: real TeamBattleSim / PredatorPreyResourcesS
         "in its declared space, getters change nothing, rewards read-and-reset, a step with in-space actions does "
         "not raise). In-domain since the repairs c4ff362 / afc90bd / c275832 / fce2c1d: agents that strike two or "
         "three agents at once, killed entities without a reward entry, MultiMazeNavigationSim's ledger, callers that "
-        "overwrite the returned observations in place (15% of the cases)." + p_corridor.RULE + p_multigrid.RULE + p_reach.RULE)
+        "overwrite the returned observations in place (15% of the cases)." + p_corridor.RULE + p_multigrid.RULE + p_reach.RULE + p_pacman.RULE)
 ASSUMPTIONS = [
     "example-modelled: rewards are compared in units of 1/100 (the real float x is read as round(100 x), which must be "
     "within 1e-6; floating-point rounding of the reward sums is not modelled)",
@@ -1127,5 +1139,9 @@ ASSUMPTIONS = [
     "example-modelled: ReachTheTargetSim is modelled (Model/Reach.lean); proved: WInvWeak of every reachable world, "
     "observations in the declared space; `stepMustNotRaise => step returns` is proved for steps that start in a WInv "
     "world and judged at run time otherwise; its two KeyError branches for in-space actions (findings R1, R2) were "
-    "repaired in the repo and the model follows; pacman.py, comms_blocking.py and multi_agent_sim.py are not modelled",
+    "repaired in the repo and the model follows; comms_blocking.py and multi_agent_sim.py are not modelled",
+    "example-modelled: PacmanSim / PacmanSimSimple are modelled (Model/Pacman.lean) with the exact state a raising step leaves; "
+    "proved: Lawful/WF (C01, C07), reset establishes WInv from anything and forgets (C03, C08), static part and legal vitals in "
+    "every reachable state; the cell structure (WInvFloat), `stepPre => step returns and leaves WInv` and observation membership "
+    "are judged at run time (PM.specPM); reward schemes are compared in units of 1/100 (values that are multiples of 0.01)",
 ]
